@@ -150,6 +150,29 @@ def corpus(cpu_names):
     return out
 
 
+def template_extra(cpu_names):
+    """instruction texts of tests/comparison/template/*.txt that are not in the comparison file of the CPU (the lines the
+    test generator leaves out, many of them commented out with a ';'): forms the repository names but does not test"""
+    out = []
+    d = os.path.join(C.REPO, "tests", "comparison")
+    have = set(corpus(cpu_names))
+    td = os.path.join(d, "template")
+    if not os.path.isdir(td):
+        return out
+    for f in sorted(os.listdir(td)):
+        cpu = f[:-4]
+        if not f.endswith(".txt") or cpu not in cpu_names:
+            continue
+        for line in open(os.path.join(td, f), errors="replace"):
+            text = line.strip().lstrip(";").strip()
+            if not text or text.startswith(("//", ".", "#")) or "\t" in text or len(text) >= 100 or "  (" in text:
+                continue
+            if (cpu, text) not in have:
+                have.add((cpu, text))
+                out.append((cpu, text))
+    return out
+
+
 def enc_event(o, by_name):
     cpu = o["cpu"]
     base = None
